@@ -162,6 +162,8 @@ DROP_PROBES = {
     "pass": ("x = 1\nif x > 0:\n    pass\n", None),
     "statements-after-an-if-that-starts-an-else-block": ("from Reduino.Actuators import Led\nled = Led(13)\na = 1\nif a > 5:\n    led.on()\nelse:\n    if a > 0:\n        led.off()\n    led.set_brightness(77)\n", "77"),
     "statements-after-an-if-that-starts-an-elif-block": ("from Reduino.Actuators import Led\nled = Led(13)\na = 1\nif a > 5:\n    led.on()\nelif a > 3:\n    if a > 4:\n        led.off()\n    led.set_brightness(78)\nelse:\n    led.off()\n", "78"),
+    "led-call-in-helper-defined-above-the-declaration": ("from Reduino.Actuators import Led\ndef pulse():\n    led.on()\n    led.off()\n    led.toggle()\nled = Led(13)\npulse()\n", "digitalWrite(13, HIGH)"),
+    "statements-of-the-second-except-clause-stay-in-their-handler": ("from Reduino.Actuators import Led\nled = Led(13)\ntry:\n    led.on()\nexcept Exception:\n    led.off()\nexcept ValueError:\n    led.set_brightness(91)\nled.set_brightness(92)\n", "catch (ValueError"),
     "return-tight-against-parenthesis": ("def ten():\n    return(10)\nr = ten()\n", "return"),
     "return-tight-against-minus": ("def minus():\n    return-1\nr = minus()\n", "return"),
     "return-tight-against-string": ("def word():\n    return'ab'\nr = word()\n", "return"),
